@@ -38,7 +38,7 @@ def instances(tier, seed):
             L = nn * 2 * S
             for op, oname in enumerate(OPS):
                 ps = {0: [0, -18, 18], 1: [18], 2: [1, 18, 35], 3: [18], 4: [0, 18, 35], 5: [1, -nn], 6: [3, -1], 7: [1, nn], 8: [0], 9: [18], 10: [18]}[op]
-                for p in ps:
+                for p in dict.fromkeys(ps):
                     if be == "ntt120" and not (nn in (2, 4) and p == ps[0]):
                         continue
                     out.append(Instance(crate="hk_hal", family=f"hal.{oname}", name=f"c12_hal_{oname}_{be}_n{nn}_p{sgn(p)}",
